@@ -8,6 +8,7 @@
 package main
 
 import (
+	"context"
 	"fmt"
 	"io"
 	"log"
@@ -305,6 +306,37 @@ func (s *session) script() {
 			present(re[len(re)-1])
 		}
 		present(validOffer(tb, "dup-valid"))
+		// third state of the ref: stored, then removed again through the store (where removal is
+		// supported): a corrupt offer must still be refused and leave the ref absent
+		if i < 3 && !s.dead && s.b.Caps.Remove && !s.b.Caps.RemoveMixed {
+			if _, st := s.stored[tb.Ref]; st {
+				if err := s.b.S.RemoveBlobs(context.Background(), []blob.Ref{tb.Ref}); err == nil {
+					delete(s.stored, tb.Ref)
+					s.r.Note("ref_states", "stored-then-removed")
+					for k := 0; k < 3 && k < len(muts); k++ {
+						cp := *muts[k]
+						present(&cp)
+					}
+				}
+			}
+		}
+	}
+	// read-only layers (overlay lower, …): a blob that only exists below, removed through the store
+	if s.b.Preload != nil && s.b.Caps.Remove && !s.dead {
+		for i := 0; i < 2; i++ {
+			tb := genTrue(rng, 100+i, 300+i, seen)
+			if err := s.b.Preload([]sto.Blob{{Ref: tb.Ref, Data: tb.Data}}); err != nil {
+				break
+			}
+			if err := s.b.S.RemoveBlobs(context.Background(), []blob.Ref{tb.Ref}); err != nil {
+				s.stored[tb.Ref] = tb.Data
+				continue
+			}
+			s.r.Note("ref_states", "below-then-removed")
+			for _, of := range mutations(rng, tb)[:4] {
+				present(of)
+			}
+		}
 	}
 	for _, of := range unknownHashOffers(rng)[2:] {
 		present(of)
